@@ -92,7 +92,28 @@ FeeSim(row, t, d, inc) ==
                     avg == IF QGt(a0, tgt) THEN tgt ELSE a0
                 IN  QAdd(BASE, Fl(QDiv(QMul(TAX, avg), tgt)))
 
-ClipFee(f) == QMax(Zero, QMin(BPS, f))
+(* both at once (shared sub-terms; this is what Step evaluates) *)
+Fees(row, t, d, inc) ==
+  LET init == row.tusdg[t]
+      tx   == TargetExact(row, t)
+      tv   == Fl(tx)
+      nx   == NextAmount(init, d, inc)
+      idx  == Diff(init, tx)
+      ndx  == Diff(nx, tx)
+      idv  == Diff(init, tv)
+      ndv  == Diff(nx, tv)
+      ax0  == QDiv(QAdd(idx, ndx), QI(2))
+      av0  == Fl(QDiv(QAdd(idv, ndv), QI(2)))
+  IN  [sim    |-> IF tx = Zero THEN BASE
+                  ELSE IF QLt(ndx, idx)
+                       THEN LET reb == QDiv(QMul(TAX, idx), tx) IN IF QGt(reb, BASE) THEN Zero ELSE QSub(BASE, reb)
+                       ELSE QAdd(BASE, Fl(QDiv(QMul(TAX, IF QGt(ax0, tx) THEN tx ELSE ax0), tx))),
+       vault  |-> IF tv = Zero THEN BASE
+                  ELSE IF QLt(ndv, idv)
+                       THEN LET reb == Fl(QDiv(QMul(TAX, idv), tv)) IN IF QGt(reb, BASE) THEN Zero ELSE QSub(BASE, reb)
+                       ELSE QAdd(BASE, Fl(QDiv(QMul(TAX, IF QGt(av0, tv) THEN tv ELSE av0), tv))),
+       branch |-> IF tx = Zero THEN "target0" ELSE IF QLt(ndx, idx) THEN "improve"
+                  ELSE IF QGt(ax0, tx) THEN "worsen_capped" ELSE "worsen"]
 
 -----------------------------------------------------------------------------
 (* decimals: Vault.adjustForDecimals(amount, tokenDiv, tokenMul) = amount * 10^dec(mul) / 10^dec(div) *)
@@ -115,14 +136,10 @@ MintAtFee(row, t, amt, f) ==
 
 MintSim(row, t, amt) ==
   LET usdg1 == UsdgOf(row, t, Wei(t, amt))
-      f     == FeeSim(row, t, usdg1, TRUE)
-      fv    == FeeVault(row, t, usdg1, TRUE)
-      m     == MintAtFee(row, t, amt, f)
-  IN  [glp  |-> QDiv(m.wei, E(GLP_DEC)), wei |-> m.wei, fee |-> f, feeVault |-> fv, usdg |-> usdg1,
-       band |-> m.band \/ Near(UsdgX(row, t, Wei(t, amt))),
-       lo   |-> QDiv(MintAtFee(row, t, amt, ClipFee(QAdd(fv, One))).wei, E(GLP_DEC)),
-       hi   |-> QDiv(MintAtFee(row, t, amt, ClipFee(QSub(fv, One))).wei, E(GLP_DEC)),
-       branch |-> FeeBranch(row, t, usdg1, TRUE)]
+      fs    == Fees(row, t, usdg1, TRUE)
+      m     == MintAtFee(row, t, amt, fs.sim)
+  IN  [glp  |-> QDiv(m.wei, E(GLP_DEC)), wei |-> m.wei, fee |-> fs.sim, feeVault |-> fs.vault, usdg |-> usdg1,
+       band |-> m.band \/ Near(UsdgX(row, t, Wei(t, amt))), branch |-> fs.branch]
 
 (* the contract: floors in _collectSwapFees too *)
 MintContractWei(row, t, amt) ==
@@ -141,13 +158,9 @@ RedeemAtFee(row, t, usdg, f) ==          \* human units of token t; the simulato
 
 RedeemSim(row, t, g) ==
   LET usdg == BurnUsdg(row, g)
-      f    == FeeSim(row, t, usdg, FALSE)
-      fv   == FeeVault(row, t, usdg, FALSE)
-  IN  [out |-> RedeemAtFee(row, t, usdg, f), fee |-> f, feeVault |-> fv, usdg |-> usdg,
-       band |-> Near(BurnUsdgX(row, g)),
-       lo  |-> RedeemAtFee(row, t, usdg, ClipFee(QAdd(fv, One))),
-       hi  |-> RedeemAtFee(row, t, usdg, ClipFee(QSub(fv, One))),
-       branch |-> FeeBranch(row, t, usdg, FALSE)]
+      fs   == Fees(row, t, usdg, FALSE)
+  IN  [out |-> RedeemAtFee(row, t, usdg, fs.sim), fee |-> fs.sim, feeVault |-> fs.vault, usdg |-> usdg,
+       band |-> Near(BurnUsdgX(row, g)), branch |-> fs.branch]
 
 RedeemContract(row, t, g) ==            \* human units, every floor of the contract
   LET usdg == BurnUsdg(row, g)
@@ -173,7 +186,7 @@ InitSt(w0) == [row |-> 0, w |-> w0, glp |-> Zero, reward |-> Zero, n |-> 0]
 
 NetValue(st, row) == QAdd(QMul(st.glp, row.glpPrice), QDiv(QMul(st.reward, row.price["wavax"]), E(30)))
 
-NoRes == [ret |-> Zero, fee |-> Zero, feeVault |-> Zero, usdg |-> Zero, band |-> FALSE, lo |-> Zero, hi |-> Zero, branch |-> "-"]
+NoRes == [ret |-> Zero, fee |-> Zero, feeVault |-> Zero, usdg |-> Zero, band |-> FALSE, branch |-> "-", rt |-> Zero]
 
 Step(st, ev, RowOf(_)) ==
   CASE ev.op = "bar" ->
@@ -186,8 +199,8 @@ Step(st, ev, RowOf(_)) ==
          LET row == RowOf(st.row)
              m   == MintSim(row, ev.tok, ev.amt)
              ws  == WalletSub(st.w[ev.tok], ev.amt)
-             res == [ret |-> m.glp, fee |-> m.fee, feeVault |-> m.feeVault, usdg |-> m.usdg, band |-> m.band,
-                     lo |-> m.lo, hi |-> m.hi, branch |-> m.branch]
+             res == [ret |-> m.glp, fee |-> m.fee, feeVault |-> m.feeVault, usdg |-> m.usdg, band |-> m.band, branch |-> m.branch,
+                     rt |-> RedeemSim(row, ev.tok, m.glp).out]      \* what selling the minted GLP back at once would pay
          IN  IF ws.ok
              THEN [st |-> [st EXCEPT !.w[ev.tok] = ws.bal, !.glp = QAdd(@, m.glp), !.n = @ + 1], out |-> "ok", res |-> res]
              ELSE [st |-> [st EXCEPT !.glp = IF DEV_MutateBeforeDebit THEN QAdd(@, m.glp) ELSE @, !.n = @ + 1],
@@ -199,8 +212,8 @@ Step(st, ev, RowOf(_)) ==
              THEN [st |-> [st EXCEPT !.n = @ + 1], out |-> "reject", res |-> NoRes]
              ELSE LET r == RedeemSim(row, ev.tok, g)
                   IN  [st |-> [st EXCEPT !.w[ev.tok] = QAdd(@, r.out), !.glp = QSub(@, g), !.n = @ + 1], out |-> "ok",
-                       res |-> [ret |-> r.out, fee |-> r.fee, feeVault |-> r.feeVault, usdg |-> r.usdg, band |-> r.band,
-                                lo |-> r.lo, hi |-> r.hi, branch |-> r.branch]]
+                       res |-> [ret |-> r.out, fee |-> r.fee, feeVault |-> r.feeVault, usdg |-> r.usdg, band |-> r.band, branch |-> r.branch,
+                                rt |-> Zero]]
 
 (* action records (BuyGlpAction / SellGlpAction) of an accepted event, as functions of event and result:
      buy : [type |-> "gmx_buy_glp",  token |-> tok, token_amount |-> amt,        mint_amount |-> ret * 10^18]
